@@ -39,6 +39,11 @@ fn by_name_history(rng: &mut Rng, table: &Table, st: &mut Stats) {
         })
         .collect();
     let use_flat = rng.chance(1, 2);
+    // flat operands may also be uncompiled (their literals still carry their unary operators)
+    let uncompiled = use_flat && rng.chance(1, 3);
+    if uncompiled {
+        st.bump("by_name_histories_on_uncompiled_flat_operands");
+    }
     let bins: Vec<usize> = (0..table.len()).filter(|i| table[*i].bin.is_some()).collect();
     let uns: Vec<usize> = (0..table.len()).filter(|i| table[*i].un.is_some()).collect();
     let steps = rng.range(1, 8);
@@ -47,7 +52,7 @@ fn by_name_history(rng: &mut Rng, table: &Table, st: &mut Stats) {
     let mut hist: Vec<String> = vec![];
     let r = catch(|| -> Option<String> {
         let mut pool = if use_flat {
-            Pool::Flat(seeds.iter().map(|(t, s)| (t.clone(), FX::parse(s).expect("seed parses"))).collect())
+            Pool::Flat(seeds.iter().map(|(t, s)| (t.clone(), if uncompiled { FX::parse_wo_compile(s) } else { FX::parse(s) }.expect("seed parses"))).collect())
         } else {
             Pool::Deep(seeds.iter().map(|(t, s)| (t.clone(), DX::parse(s).expect("seed parses"))).collect())
         };
@@ -416,6 +421,7 @@ pub fn run(ctx: &Ctx) -> i32 {
     )
     .assume("assignments where the unsimplified reference is not finite are counted and not judged (the statement's proviso)")
     .require("by_name_steps", 10000)
+    .require("by_name_histories_on_uncompiled_flat_operands", 500)
     .require("unknown_operator_probes", 500)
     .require("named_helper_applications", 1000)
     .require("points_judged_exact", 5000)
